@@ -76,7 +76,7 @@ pub fn rtp_packet(r: &mut Rng, valid: bool) -> RtpPacket {
         6 => Some(RtpHeaderExtension::new(0x1000, two_byte_block(r).0)),
         7 => Some(RtpHeaderExtension::new(pk!(r, [0u16, 0x1234, 0x1001, 0xFFFF]), { let n = 4 * r.below(6) as usize; r.bytes(n) })),
         8 => Some(RtpHeaderExtension::new(0xBEDE, { let mut b = bad_block(r); while b.len() % 4 != 0 { b.push(0); } b })),
-        _ => Some(RtpHeaderExtension::new(0xBEDE, { let n = pk!(r, [0usize, 4, 252, 1020]); r.bytes(n) })),
+        _ => Some(RtpHeaderExtension::new(pk!(r, [0xBEDEu16, 0x4321]), { let n = pk!(r, [0usize, 4, 252, 1020, 1024, 1028, 2048, 4 * 300]); let mut b = r.bytes(n); for x in b.iter_mut().step_by(3) { *x &= 0x0F; } b })),
     };
     if !valid && r.chance(1, 2) {
         let n = pk!(r, [1usize, 2, 3, 5, 7]);
